@@ -382,6 +382,19 @@ def scn_native(T, case):
         T.prove("C16.native.changing_the_seed_changes_the_perturbations", reqs(changed) != reqs(base))
 
 
+# ------------------------------------------------------------------------------------ a plug-in manager per context (shared contract)
+def cases_context(tier):
+    from contracts import ctxcontract
+
+    return ctxcontract.cases(tier)
+
+
+def scn_context(T, case):
+    from contracts import ctxcontract
+
+    ctxcontract.scenario(T, case, "C16")
+
+
 SCENARIOS = [
     Scenario("generator_construction_and_hand_over", scn_rng, cases_rng, {"quick": 1, "thorough": 1}),
     Scenario("sampler_passes_generator_to_scipy", scn_sampler_frame, cases_sampler_frame, {"quick": 1, "thorough": 3}),
@@ -389,6 +402,7 @@ SCENARIOS = [
     Scenario("backend_options_not_aliased", scn_options, cases_options, {"quick": 1, "thorough": 1}),
     Scenario("package_frame_scan", scn_scan, cases_scan, {"quick": 1, "thorough": 1}),
     Scenario("native_traces_under_hostile_conditions", scn_native, cases_native, {"quick": 1, "thorough": 4}),
+    Scenario("plugin_manager_per_context", scn_context, cases_context, {"quick": 1, "thorough": 1}),
 ]
 
 MANIFEST = {
